@@ -4,5 +4,6 @@ CONSTANTS
   WB = 7
   Mutant = "wrap"
   Wide = FALSE
+  Only = {"point", "point3d", "multiply", "invert"}
   LimbBits <- MCLimbBits
 INVARIANTS Sound DevOK Tight
